@@ -1,14 +1,27 @@
 import SophiaModel.Basic.TermOrder
 import SophiaModel.Model.NT
+import SophiaModel.Gen.NtAscii
 
 /-!
 C03 driver.  Requests:
 
-  ds <nt|nq> <quad>*   the model's serialisation of the dataset (`out=`, compared byte for byte with
+  ds <nt|nq>[:opt,..] <quad>*
+                       the model's serialisation of the dataset (`out=`, compared byte for byte with
                        NtSerializer / NqSerializer), what the property demands of the real parsers on
-                       it (`o.rt=1 o.rt_gnq=1 o.lines=n o.nl_end=1`) when the dataset is in the
-                       property's domain (toolkit-valid terms, strict positions, BCP 47 tags), and the
-                       classification itself (`valid= bcp=`, compared with the real validators)
+                       it (`o.rt=1 o.rt_gnq=1 o.rt_buf=1 o.rt_pipe=1 o.lines=n o.nl_end=1`) when the
+                       dataset is in the property's domain (toolkit-valid terms, strict positions,
+                       BCP 47 tags), and the classification itself (`valid= bcp=`, compared with the
+                       real validators).  Options: `ascii` (`out=panic` as long as the source says
+                       `todo!()` — generated flags `Gen.ntAsciiTodo/nqAsciiTodo` —, afterwards only
+                       the oracles: what the option promises about the bytes is not C03's business); `set` (a set container: exact duplicates
+                       collapse, `out` is the sorted sequence of lines); `fail<n>` (a sink that takes
+                       n bytes: `out=err` iff the document is longer); `src coll vec bufw short<k>`
+                       change nothing that is observable
+  rd <nt|nq>[:s] <hexdoc> <quad>*
+                       the grammar reader on bytes the REAL serializer wrote for these quads:
+                       `o.reads=<hex>` must be exactly those quads (`:s`: as a sorted collection)
+  nat <kind> <hex> <term>
+                       `write_term` on a non-SimpleTerm value that shows itself as <term>
   p <nt|nq> <hexdoc>   the grammar reader on an arbitrary document: `ok=0`, or `ok=1 quads=<hex>`
                        (canonical rendering, tags lower-cased) — or `m.ok=… skip=<why>` where the
                        comparison with Rio is not meaningful (documented systematic differences)
@@ -42,26 +55,116 @@ def hasLoneCr : Str → Bool
   | [] => false
   | c :: r => (c = '\r' && (match r with | '\n' :: _ => false | _ => true)) || hasLoneCr r
 
+/-- split at every occurrence of `sep` -/
+def splitAt (sep : Char) : Str → List Str
+  | [] => [[]]
+  | c :: s =>
+    if c = sep then [] :: splitAt sep s
+    else match splitAt sep s with
+      | h :: t => (c :: h) :: t
+      | [] => [[c]]
+
+def natOfDigits (cs : Str) : Option Nat :=
+  if cs.isEmpty || !cs.all Char.isDigit then none
+  else some (cs.foldl (fun a c => a * 10 + (c.toNat - 48)) 0)
+
+def stripPrefix (p : String) (s : Str) : Option Str :=
+  if p.toList.isPrefixOf s then some (s.drop p.length) else none
+
+structure Opts where
+  nq : Bool
+  ascii : Bool := false
+  set : Bool := false
+  fail : Option Nat := none
+
+def applyOpt (o : Opts) (x : Str) : Option Opts :=
+  if x = "ascii".toList then some { o with ascii := true }
+  else if x = "set".toList then some { o with set := true }
+  else if x = "src".toList || x = "coll".toList || x = "vec".toList || x = "bufw".toList then some o
+  else match stripPrefix "short" x with
+    | some k => (natOfDigits k).bind fun k => if k = 0 then none else some o
+    | none =>
+      match stripPrefix "fail" x with
+      | some n => (natOfDigits n).map fun n => { o with fail := some n }
+      | none => none
+
+def parseOpts (tok : String) : Option Opts :=
+  match splitAt ':' tok.toList with
+  | m :: rest =>
+    let base : Option Opts :=
+      if m = "nq".toList then some { nq := true } else if m = "nt".toList then some { nq := false } else none
+    match base, rest with
+    | some o, [] => some o
+    | some o, [r] => ((splitAt ',' r).filter (fun x => !x.isEmpty)).foldl (fun acc x => acc.bind (applyOpt · x)) (some o)
+    | _, _ => none
+  | [] => none
+
+/-- code point order = byte order of the UTF-8 encodings -/
+def strLe : Str → Str → Bool
+  | [], _ => true
+  | _ :: _, [] => false
+  | a :: s, b :: t => a.toNat < b.toNat || (a == b && strLe s t)
+
+def handleDs (o : Opts) (d0 : List Quad) : String :=
+  let nq := o.nq
+  let valid := d0.all (fun q => quadAll termValid q && strictQuad q)
+  let bcp := d0.all (quadAll termBcp)
+  let cls := [kvB "valid" valid, kvB "bcp" bcp]
+  let todo := if nq then Gen.nqAsciiTodo else Gen.ntAsciiTodo
+  if o.ascii && todo then reply ("out=panic" :: cls)        -- `todo!("Pure-ASCII … is not implemented yet")`
+  else if d0.any quadPanics then reply ("out=panic" :: cls)
+  else
+    -- a set container holds each quad once
+    let d := if o.set then d0.eraseDups else d0
+    let out := writeDoc d
+    let shown := if o.set then ((d.map writeQuad).mergeSort strLe).flatten else out
+    let tooLong := match o.fail with
+      | some n => decide ((String.ofList out).utf8ByteSize > n)
+      | none => false
+    if tooLong then reply ("out=err" :: cls)
+    else if o.fail.isSome then
+      -- whether the document fits depends on its length, i.e. on its spelling: bytes only, no oracle
+      reply (kv "out" (hexOfChars shown) :: cls)
+    else
+      let wf := d.all quadOk
+      reply ((if o.ascii then [] else [kv "out" (hexOfChars shown)])
+        ++ cls ++ [kvB "wf" wf, kvB "mrt" (readDoc nq out == some d)]
+        ++ (if wf then [kvN "o.lines" d.length, "o.nl_end=1"] else [])
+        ++ (if valid && bcp then
+              (if wf then ["o.rt=1", "o.rt_gnq=1", "o.rt_buf=1", "o.rt_pipe=1"]
+               else ["o.rt=model-wf-gap"])
+            else []))
+
+def renderExact (sorted : Bool) (qs : List Quad) : String :=
+  let v := qs.map (fun q => q.render.toList)
+  let v := if sorted then v.mergeSort strLe else v
+  ";".intercalate (v.map String.ofList)
+
 def handle (line : String) : String :=
   match fields line with
   | "ds" :: mode :: rest =>
-    match parseQuads (rest.length + 1) rest with
-    | none => "bad-op"
-    | some d =>
-      let nq := mode == "nq"
-      if !nq && d.any (fun q => q.g.isSome) then "bad-op"
-      else if d.any quadPanics then "out=panic"
-      else
-        let out := writeDoc d
-        let valid := d.all (fun q => quadAll termValid q && strictQuad q)
-        let bcp := d.all (quadAll termBcp)
-        let wf := d.all quadOk
-        reply ([kv "out" (hexOfChars out), kvB "valid" valid, kvB "bcp" bcp, kvB "wf" wf,
-                kvB "mrt" (readDoc nq out == some d)]
-          ++ (if wf then [kvN "o.lines" d.length, "o.nl_end=1"] else [])
-          ++ (if valid && bcp then
-                (if wf then ["o.rt=1", "o.rt_gnq=1"] else ["o.rt=model-wf-gap"])
-              else []))
+    match parseOpts mode, parseQuads (rest.length + 1) rest with
+    | some o, some d =>
+      if !o.nq && d.any (fun q => q.g.isSome) then "bad-op" else handleDs o d
+    | _, _ => "bad-op"
+  | "rd" :: mode :: h :: rest =>
+    match charsOfHex h, parseQuads (rest.length + 1) rest with
+    | some doc, some d =>
+      let nq := mode.startsWith "nq"
+      let sorted := mode.endsWith ":s"
+      let inDomain := d.all (fun q => quadAll termValid q && strictQuad q && quadAll termBcp q)
+      let got := match readDoc nq doc with
+        | none => "reject"
+        | some qs => hexOfString (renderExact sorted qs)
+      reply [kv (if inDomain then "o.reads" else "m.reads") got, kvB "same" (got == hexOfString (renderExact sorted d))]
+    | _, _ => "bad-op"
+  | "nat" :: _kind :: _h :: rest =>
+    match Term.parseAll rest with
+    | some (t, []) =>
+      if termPanics t then "out=panic"
+      else reply ([kv "out" (hexOfChars (writeTerm t)), kv "seen" (hexOfString t.render)]
+        ++ (if termOk t && posOk .obj t then ["o.rt=1"] else []))
+    | _ => "bad-op"
   | ["p", mode, h] =>
     match charsOfHex h with
     | none => "bad-hex"
@@ -79,12 +182,15 @@ def handle (line : String) : String :=
     match charsOfHex h with
     | none => "bad-hex"
     | some s =>
-      -- `q` is computed by the control-flow mirror of the source's loop (`quotedStringRs`), which
-      -- `quoted_rs_eq` proves equal to the char-wise `quotedString` the other theorems are about
-      match quotedStringRs s with
-      | none => "q=panic"
-      | some q => reply [kv "q" (hexOfChars q), kv "o.back" (hexOfChars s),
-                         kvB "mback" (unescape (quotedString s) == some s), kvB "meq" (q == quotedString s)]
+      -- `q` is computed by the control-flow mirror of the source's loop run on the UTF-8 BYTES of the
+      -- text (`quotedBytesRs`), which `quoted_bytes_eq` proves equal to the encoding of the char-wise
+      -- `quotedString` the other theorems are about (`quoted_rs_eq`: same for the scalar-value loop)
+      match quotedBytesRs (utf8 s), quotedStringRs s with
+      | some q, some q' =>
+        reply [kv "q" (hexOfBytes q.toByteArray), kv "o.back" (hexOfChars s),
+               kvB "mback" (unescape (quotedString s) == some s),
+               kvB "meq" (q == utf8 (quotedString s) && q' == quotedString s)]
+      | _, _ => "q=panic"
   | ["search"] =>
     -- model search: shortest strings over the critical alphabet whose escaped form does not read
     -- back (non-empty only if the regenerated escape table broke `unescape_quoted`)
